@@ -72,9 +72,123 @@ def captured_preserved(ctx, fb):
              'the set of outputs considered preserved is read from the fusion %s: a Constant / Identity fusion deletes the producers of a value that a subgraph captures by name, so the optimized model fails with a missing input where the original runs' % ('; '.join(bad) or '(no read found)'), f.loc())
 
 
+def norm_keepdims(ctx, fb):
+    """the LayerNormalization / RmsNormalization fusions replace `x - ReduceMean(x)` style subgraphs, in which the mean is
+    broadcast back along the reduced axis: that only equals the fused operator if the ReduceMean keeps the reduced
+    dimension.  Somewhere on the way to accepting the match (the fusion's maybe_fuse, op_applied_to_last_axis or
+    ReduceMean's OperatorAxis::get_axis) the ReduceMean's keep_dims attribute must be read."""
+    R = 'C01.fusion-guards'
+    fns = [f for f in fb.fns(crate='rten') if f.has_mir() and re.search(
+        r'optimize::fusions::(LayerNormalizationFusion|RmsNormalizationFusion) as .*>::maybe_fuse|optimize::fusions::op_applied_to_last_axis|ReduceMean as rten::optimize::fusions::OperatorAxis>::get_axis', f.path)]
+    if not ctx.anchor(R, 'normalization fusions + ReduceMean::get_axis', len(fns) >= 3):
+        return
+    reads = 0
+    for f in fns:
+        for b in f.bbs:
+            if b.get('c'):
+                continue
+            for st in b['s']:
+                if st[0] == '=':
+                    for o in _rv_operands(st[2]):
+                        pl = op_place(o)
+                        if pl and any(isinstance(e, list) and e[0] == 'f' and str(e[2]) == 'keep_dims' for e in pl[1:]):
+                            reads += 1
+            t = b['t']
+            if t[0] == 'sw':
+                pl = op_place(t[1])
+                if pl and any(isinstance(e, list) and e[0] == 'f' and str(e[2]) == 'keep_dims' for e in pl[1:]):
+                    reads += 1
+    ctx.inst(R, 'norm-fusions-require-keep-dims', reads >= 1, 'the normalization fusions read ReduceMean.keep_dims before accepting a match' if reads else
+             'neither the LayerNormalization / RmsNormalization fusions nor ReduceMean::get_axis read keep_dims: a `x - ReduceMean(x, keepdims=0)` subgraph (whose mean broadcasts along a different axis for square inputs) is replaced by LayerNormalization, changing a successful result', fns[0].loc())
+
+
+def fusion_attrs(ctx, fb):
+    """fusions that rewrite a subgraph must honour what the replaced operators' attributes / operand shapes say:
+    (scalar) a constant operand is treated as a scalar (x+0, x*1, alpha, scale ...) only if its rank is 0 - a one-element
+    tensor of higher rank changes the rank of the broadcast result; (bias) FusedMatMul hands its bias to the GEMM as a row
+    bias only under `bias.len() == columns`; (shape-slice) ShapeSliceToConstant reads the Shape operator's start / end;
+    (reduce-mean) the fused ReduceMean copies noop_with_empty_axes from the operator it replaces."""
+    R = 'C01.fusion-attrs'
+    def fn1(pat):
+        fs = [f for f in fb.fns(crate='rten') if f.has_mir() and re.search(pat, f.path)]
+        return fs[0] if len(fs) == 1 else None
+    # (scalar)
+    for pat, label, callee in ((r'Graph as rten::optimize::fusions::GraphQuery>::get_scalar$', 'get_scalar', r'::as_scalar$'),
+                               (r'optimize::pattern_matcher::ConstantPattern::matches$', 'ConstantPattern::matches', r'::item$')):
+        f = fn1(pat)
+        if not ctx.anchor(R, label, f is not None):
+            continue
+        sites = [(h, c) for h in [fb.fn(q) for q in fb.with_closures(f.path)] if h is not None and h.has_mir() for c in h.calls() if re.search(callee, c.callee or '')]
+        ok = bool(sites)
+        for (h, c) in sites:
+            g_ok = False
+            for (op, a, b, g) in normalized_cmps(h, c.bb):
+                if op == 'Eq' and op_int(b) == 0 and any(o[0] == 'call' and re.search(r'::ndim$', o[1] or '') for o in h.origins(a)):
+                    g_ok = True
+            ok = ok and g_ok
+        ctx.inst(R, 'scalar-only-if-rank-0:' + label, ok, 'a constant is taken as a scalar only under ndim() == 0' if ok else
+                 'a one-element constant of any rank is taken as a scalar: broadcasting with e.g. a [1,1] constant adds dimensions to the unfused result that the fused operator / elided identity does not produce', f.loc())
+    # (bias)
+    f = fn1(r'ops::matmul::FusedMatMul as rten::operator::Operator>::run$')
+    if ctx.anchor(R, 'FusedMatMul::run', f is not None):
+        hs = [h for h in [fb.fn(q) for q in fb.with_closures(f.path)] if h is not None and h.has_mir()]
+        rows = [1 for h in hs for b in h.bbs if not b.get('c') for st in b['s'] if st[0] == '=' and st[2][0] == 'agg' and st[2][3] == 'Row']
+        # the length test: a comparison between bias.len() and b.size(..) on which an early return depends
+        ok = False
+        for i, b in enumerate(f.bbs):
+            if b.get('c') or i not in f.live():
+                continue
+            for st in b['s']:
+                if st[0] == '=' and st[2][0] == 'bin' and st[2][1] in ('Eq', 'Ne'):
+                    og = f.origins(st[2][2]) | f.origins(st[2][3])
+                    if any(o[0] == 'call' and re.search(r'::len$', o[1] or '') for o in og) and any(o[0] == 'call' and re.search(r'::size$', o[1] or '') for o in og):
+                        ok = True
+        ok = ok and bool(rows)
+        ctx.inst(R, 'row-bias-only-if-length-matches', ok, 'BiasVector::Row is built only under bias.len() == b.size(last)' if ok else
+                 'the fused bias is handed to the GEMM without comparing its length with the number of output columns: a bias the unfused Add would broadcast panics (WrongBiasSize) in the fused operator', f.loc())
+    # (shape-slice)
+    f = fn1(r'ShapeSliceToConstant as rten::optimize::fusions::FusionVisitor>::maybe_fuse$')
+    if ctx.anchor(R, 'ShapeSliceToConstant::maybe_fuse', f is not None):
+        reads = set()
+        for b in f.bbs:
+            if b.get('c'):
+                continue
+            for st in b['s']:
+                if st[0] == '=':
+                    for o in _rv_operands(st[2]):
+                        pl = op_place(o)
+                        for e in (pl or [])[1:]:
+                            if isinstance(e, list) and e[0] == 'f' and str(e[2]) in ('start', 'end') and str(e[3]).endswith('layout::Shape'):
+                                reads.add(str(e[2]))
+            t = b['t']
+            if t[0] == 'call':
+                for a in t[2]:
+                    pl = op_place(a)
+                    for e in (pl or [])[1:]:
+                        if isinstance(e, list) and e[0] == 'f' and str(e[2]) in ('start', 'end') and str(e[3]).endswith('layout::Shape'):
+                            reads.add(str(e[2]))
+        ctx.inst(R, 'shape-slice-reads-start-end', reads == {'start', 'end'}, 'the Shape operator\'s start and end attributes are read before its output is replaced by a constant' if reads == {'start', 'end'} else
+                 'ShapeSliceToConstant does not read Shape.start / Shape.end (%s read): Slice(Shape(x, start=1), ..) is replaced with dimensions counted from 0' % sorted(reads), f.loc())
+    # (reduce-mean)
+    f = fn1(r'ReduceMeanAxesFusion as rten::optimize::fusions::PatternFusion>::maybe_fuse$')
+    if ctx.anchor(R, 'ReduceMeanAxesFusion::maybe_fuse', f is not None):
+        aggs = [(i, st) for i, b in enumerate(f.bbs) if not b.get('c') for st in b['s'] if st[0] == '=' and st[2][0] == 'agg' and str(st[2][2]).endswith('reduce::ReduceMean')]
+        adt = fb.adt('rten::ops::reduce::ReduceMean')
+        names = [fd['name'] for fd in adt['variants'][0]['fields']] if adt else []
+        ok = bool(aggs) and 'noop_with_empty_axes' in names
+        for (i, st) in aggs:
+            o = st[2][4][names.index('noop_with_empty_axes')] if ok else None
+            if o is None or o[0] == 'k':
+                ok = False
+        ctx.inst(R, 'reduce-mean-copies-noop-flag', ok, 'the fused ReduceMean takes noop_with_empty_axes from the operator it replaces' if ok else
+                 'the fused ReduceMean sets noop_with_empty_axes to a constant: ReduceMean(x, axes=[] constant, noop_with_empty_axes=1) reduces over all axes after optimization instead of returning x', f.loc())
+
+
 def run(ctx):
     fb = ctx.fb()
     captured_preserved(ctx, fb)
+    norm_keepdims(ctx, fb)
+    fusion_attrs(ctx, fb)
     out_ids(ctx, fb)
     fusion_guards(ctx, fb)
     identity_output(ctx, fb)
